@@ -793,7 +793,11 @@ func shrinkOp(f hlib.Failure, wd *codeclib.Watchdog) hlib.Failure {
 	w := strings.Fields(f.Case[0])
 	if len(w) == 3 && w[0] == "proof" && w[2] != "none" {
 		// Minimize the entry list.
+		evals := 0
 		still := func(c []string) bool {
+			if evals++; evals > 300 {
+				return false
+			}
 			for _, g := range checkOps([]string{"proof " + w[1] + " " + strings.Join(c, ",")}, true, nil, wd) {
 				if g.Sig == f.Sig {
 					return true
@@ -814,7 +818,11 @@ func shrinkOp(f hlib.Failure, wd *codeclib.Watchdog) hlib.Failure {
 		return f
 	}
 	data := unhx(w[1])
+	evals := 0
 	still := func(c []byte) bool {
+		if evals++; evals > 300 {
+			return false
+		}
 		for _, g := range checkOps([]string{w[0] + " " + hx(c)}, true, nil, wd) {
 			if g.Sig == f.Sig {
 				return true
